@@ -1,6 +1,7 @@
 package main
 
 import (
+	"go/token"
 	"go/types"
 	"sort"
 	"strings"
@@ -79,7 +80,26 @@ func trueSources(v ssa.Value) (blocks []*ssa.BasicBlock, pure bool) {
 	return
 }
 
+// c03R1: the two protectors as decision tables (E10).  The guard-dominance patterns this rule used to consist of
+// (c03R1Patterns, kept for reference, no longer registered) stood for exactly these tables.
 func c03R1(h H) {
+	r := h.r
+	r.Rule("R1", "the protectors as decision tables (E10; the matcher, the credentials, the password functions and the next handler are oracles): BasicAuth.ServeHTTP, for one and two rules with every combination of resource match, exclusion (none / not matching / matching) and credentials (none, valid for either rule, right user with wrong password, unknown user), passes OPTIONS, passes a request no rule protects, passes a protected request exactly when its credentials are those of a rule protecting it, and answers every other request 401 without running the next handler; Internal.ServeHTTP, for up to three prefixes and every set of matching ones, answers 404 without running the next handler when any prefix matches and otherwise runs it once", 2)
+	bad, n := basicAuthTable(h)
+	var pos token.Pos
+	if fn := h.p.Func(baPkg, "BasicAuth.ServeHTTP"); fn != nil {
+		pos = fn.Pos()
+	}
+	r.Check(bad == "", "R1", "basicauth.BasicAuth.ServeHTTP/decision-table", pos, "a protected request reaches the handlers below only with the credentials of a rule that protects it", sprintf("%d cases evaluated", n), bad)
+	bad, n = internalTable(h)
+	pos = token.NoPos
+	if fn := h.p.Func(intPkg, "Internal.ServeHTTP"); fn != nil {
+		pos = fn.Pos()
+	}
+	r.Check(bad == "", "R1", "internalsrv.Internal.ServeHTTP/decision-table", pos, "a request for an internal path is answered 404 and nothing below runs", sprintf("%d cases evaluated", n), bad)
+}
+
+func c03R1Patterns(h H) {
 	r := h.r
 	r.Rule("R1", "guard dominance in the protectors: BasicAuth.ServeHTTP reaches Next only on r.Method==OPTIONS, on the not-protected edge, or on the authenticated edge, where 'authenticated' is a flag set only behind r.BasicAuth() ok ∧ username == Rule.Username ∧ Rule.Password(password), and 'protected' is set behind Path.Matches(resource) with no credential condition; the loop over Rules has no exit other than exhaustion; Internal.ServeHTTP reaches Next only after its loop over Paths is exhausted, the loop's only other exit returns 404", 8)
 	fn := h.fn("R1", baPkg, "BasicAuth.ServeHTTP")
@@ -335,7 +355,19 @@ func c03R1(h H) {
 	}
 }
 
+// c03R2: the matcher as a decision table (E10, concrete paths).
 func c03R2(h H) {
+	r := h.r
+	r.Rule("R2", "the matcher normalises both sides, decided as a table (E10): Path.Matches, evaluated on concrete request paths and bases, matches every spelling of a path at or below the base — dot segments, repeated slashes, trailing slashes, another letter case unless CaseSensitivePath — and does not match paths beside the base", 1)
+	bad, n := pathMatchesTable(h)
+	var pos token.Pos
+	if fn := h.p.Func(hs, "Path.Matches"); fn != nil {
+		pos = fn.Pos()
+	}
+	r.Check(bad == "", "R2", "httpserver.Path.Matches/table", pos, "no spelling of a protected path escapes the matcher", sprintf("%d cases evaluated", n), bad)
+}
+
+func c03R2Patterns(h H) {
 	r := h.r
 	r.Rule("R2", "matcher normalises both sides: in Path.Matches both operands of every strings.HasPrefix flow through path.Clean on every data path; in the branch taken when CaseSensitivePath is false both also flow through strings.ToLower", 2)
 	fn := h.fn("R2", hs, "Path.Matches")
